@@ -49,11 +49,31 @@ def rc_fns(ctx):
     return inc, dec
 
 
-def count_calls_on_paths(ctx, body, targets, depth=3):
+def _path_allowed(fl, p, known):
+    """The path does not take an arm of a match on parameter k that contradicts known[k] (the variant the caller passes)."""
+    if not known:
+        return True
+    for a, b2 in zip(p, p[1:]):
+        for lab in fl.edge_labels(a).get(b2, []):
+            if lab[0] not in ("variant", "notvariants"):
+                continue
+            x = strip_refs(lab[1])
+            if x[0] == "param" and x[1] in known:
+                if lab[0] == "variant" and lab[2] != known[x[1]]:
+                    return False
+                if lab[0] == "notvariants" and known[x[1]] in lab[2]:
+                    return False
+    return True
+
+
+def count_calls_on_paths(ctx, body, targets, depth=3, known=None):
     """For each feasible normal return path: number of call sites (transitively reaching any body in
-    `targets` within depth) on it.  Returns list of counts (one per path) and the site blocks."""
+    `targets` within depth) on it.  Returns list of counts (one per path) and the site blocks.
+    A callee that is handed a field-less enum constant (`signal(waker, Handoff::Owned)`) is counted along the paths that
+    constant selects (known = {parameter index: variant})."""
     tp = {t.path for t in targets}
     site_blocks = {}
+    fl = ctx.flow(body)
     for bb, t, fn in body.calls():
         if fn is None or body.is_cleanup(bb):
             continue
@@ -63,15 +83,21 @@ def count_calls_on_paths(ctx, body, targets, depth=3):
         if cb.path in tp:
             site_blocks[bb] = 1
         elif depth > 0 and cb.path != body.path:
-            sub = count_calls_on_paths(ctx, cb, targets, depth - 1)[0]
+            kn = {}
+            for k, a in enumerate(t["args"], start=1):
+                ae = strip_refs(fl.operand_expr(a))
+                if ae[0] == "agg" and not ae[2] and "::" in ae[1] and ae[1].rsplit("::", 1)[0] in ctx.facts.adts:
+                    kn[k] = ae[1].rsplit("::", 1)[1]
+            sub = count_calls_on_paths(ctx, cb, targets, depth - 1, kn)[0]
             if sub and max(sub) > 0:
                 # callee contributes: require it to be path-uniform to give a number
                 site_blocks[bb] = sub[0] if len(set(sub)) == 1 else -999
-    fl = ctx.flow(body)
     succ, _ = feasible_cfg(body, fl)
     counts = []
     for k, p in enumerate_paths(body, succ):
         if k != "return":
+            continue
+        if not _path_allowed(fl, p, known):
             continue
         counts.append(sum(site_blocks.get(b, 0) for b in p))
     return counts, site_blocks
@@ -124,11 +150,20 @@ def r3_1(ctx, R, inc, dec, free_fn):
     ctx.floor("R3.1", "release-sites", len(releasers), 2)
     ctx.ob("R3.1", vt["drop"], "vt[drop]-is-a-release-site", any(b.path == vt["drop"].path for _, b in releasers) or
            set(count_calls_on_paths(ctx, vt["drop"], dec)[0]) == {1}, d_loc(vt["drop"]))
+    entry_paths = {vt["drop"].path, vt["wake"].path, vt["wake_by_ref"].path, vt["clone"].path}
     for name, b in releasers:
         cdd, dsites = count_calls_on_paths(ctx, b, dec, depth=0)
         cii, _ = count_calls_on_paths(ctx, b, inc)
-        ctx.ob("R3.1", b, "%s:-1-exactly-once" % name, bool(cdd) and set(cdd) == {1} and set(cii) <= {0}, d_loc(b),
-               "dec per path %s inc per path %s" % (cdd, cii))
+        shared_helper = b.path not in entry_paths and "core::ops::Drop" not in b.path and \
+            all(cb_.path in entry_paths or "core::ops::Drop" in cb_.path for cb_, _ in R.callers_of(b)) and bool(R.callers_of(b))
+        if shared_helper:
+            # a helper shared by vtable entries that gives the reference up only for some of them (selected by a parameter):
+            # at most one decrement per path here; the exact count is decided per vtable entry with the argument it passes
+            ctx.ob("R3.1", b, "%s:-1-at-most-once(shared by vtable entries)" % name, bool(cdd) and set(cdd) <= {0, 1} and set(cii) <= {0}, d_loc(b),
+                   "dec per path %s inc per path %s; callers %s" % (cdd, cii, [cb_.path for cb_, _ in R.callers_of(b)]))
+        else:
+            ctx.ob("R3.1", b, "%s:-1-exactly-once" % name, bool(cdd) and set(cdd) == {1} and set(cii) <= {0}, d_loc(b),
+                   "dec per path %s inc per path %s" % (cdd, cii))
         frees = R.calls_to_body(b, free_fn)
         decsites = [bb for bb in dsites]
         ok = len(frees) == 1 and len(decsites) == 1
@@ -634,19 +669,28 @@ def r3_9(ctx, R):
             ok = False
             for lb, lt in locks:
                 g = lt["dest"]["l"]
-                # where the guard is released: its Drop terminator, or the block that moves it away (e.g. into mem::drop)
-                rel = [db for db in range(b.n) if b.term(db)["k"] == "drop" and not b.is_cleanup(db) and b.term(db)["place"]["l"] == g and not b.term(db)["place"]["p"]]
-                for (ub, ui, node) in fl.uses_of_local(g):
-                    if b.is_cleanup(ub):
+                # where the guard is released: the Drop terminator of whatever holds it (the guard local itself, a local it was
+                # moved into, a struct that wraps it -- `Claim { _flag: guard, fresh }`), or the call it is moved into (mem::drop)
+                rel = []
+                holders = set()
+                work = [g]
+                while work:
+                    h = work.pop()
+                    if h in holders:
                         continue
-                    moved = False
-                    if ui == "term" and node["k"] == "call":
-                        moved = any(a_["k"] == "move" and a_["place"]["l"] == g and not a_["place"]["p"] for a_ in node["args"])
-                    elif ui != "term" and node["k"] == "assign" and node["rv"]["k"] == "use" and node["rv"]["op"]["k"] == "move" \
-                            and node["rv"]["op"]["place"]["l"] == g and not node["rv"]["op"]["place"]["p"]:
-                        moved = True
-                    if moved:
-                        rel.append(ub)
+                    holders.add(h)
+                    rel += [db for db in range(b.n) if b.term(db)["k"] == "drop" and not b.is_cleanup(db) and b.term(db)["place"]["l"] == h]
+                    for (ub, ui, node) in fl.uses_of_local(h):
+                        if b.is_cleanup(ub):
+                            continue
+                        if ui == "term" and node["k"] == "call":
+                            if any(a_["k"] == "move" and a_["place"]["l"] == h for a_ in node["args"]):
+                                rel.append(ub)
+                        elif ui != "term" and node["k"] == "assign":
+                            rv_ = node["rv"]
+                            ops_ = [rv_["op"]] if rv_["k"] == "use" else (rv_["ops"] if rv_["k"] == "aggregate" else [])
+                            if any(o_["k"] == "move" and o_["place"]["l"] == h for o_ in ops_):
+                                work.append(node["place"]["l"])
                 if rel and not any(b.dominates(db, ebb) and db != ebb for db in rel):
                     ok = True
             ctx.ob("R3.9", b, "enqueue-under-the-slot-lock@%s" % _site_label(b, ebb), ok, b.loc(ebb))
